@@ -1,7 +1,7 @@
 /-
   Closed witnesses about the wire model, checked by kernel evaluation (`decide +kernel`; no
   `native_decide`). They pin the listed deviations of the real code (each was also observed on the
-  implementation by `verifharness wire`, see the request in the comment) and show that the model
+  implementation by `verifharness wire`, see the request in the comment) and the repaired D11 and show that the model
   definitions reduce in the kernel, i.e. that theorems about them can be proved by computation.
 -/
 import RedkaModel.Model.Wire.Server
@@ -16,12 +16,16 @@ def isPanic : ParseOut → Bool | .panic => true | _ => false
 def isErr (e : RErr) : ParseOut → Bool | .error e' => e == e' | _ => false
 def cmdOf : ParseOut → Option Cmd | .ok c => some c.cmd | _ => none
 
-/-! ### D11: a negative `numkeys` panics in `parser.StringsN` (four commands) -/
+/-! ### D11 (repaired): a negative `numkeys` is refused by `parser.StringsN` with the
+wrong-number-of-arguments error (four commands); it used to panic in `make([]string, n)` -/
 
-example : isPanic (parse [b "ZINTER", b "-1", b "k1"]) = true := by decide +kernel
-example : isPanic (parse [b "zunion", b "-2", b "k1", b "k2", b "WITHSCORES"]) = true := by decide +kernel
-example : isPanic (parse [b "ZINTERSTORE", b "d", b "-1", b "k1"]) = true := by decide +kernel
-example : isPanic (parse [b "ZUNIONSTORE", b "d", b "-9223372036854775808", b "k1"]) = true := by decide +kernel
+example : isErr .invalidArgNum (parse [b "ZINTER", b "-1", b "k1"]) = true := by decide +kernel
+example : isErr .invalidArgNum (parse [b "zunion", b "-2", b "k1", b "k2", b "WITHSCORES"]) = true := by
+  decide +kernel
+example : isErr .invalidArgNum (parse [b "ZINTERSTORE", b "d", b "-1", b "k1"]) = true := by decide +kernel
+example : isErr .invalidArgNum (parse [b "ZUNIONSTORE", b "d", b "-9223372036854775808", b "k1"]) = true := by
+  decide +kernel
+example : isPanic (parse [b "ZINTER", b "-1", b "k1"]) = false := by decide +kernel
 -- with nothing after the count the arity check comes first
 example : isErr .invalidArgNum (parse [b "ZINTER", b "-1"]) = true := by decide +kernel
 -- a count larger than what follows is an arity error, zero keys is accepted
